@@ -17,6 +17,16 @@ Streams (all from run.seed):
                     called on that tensor alone; 2^k twins inside one history are checked on the SAME object;
   argforms          the numeric options as numpy / float / 0-d array / tf.constant and the input as
                     numpy / float64 / tf.Variable / nested list: same value => same output and scale;
+  consumer          the quantizers as WEIGHT quantizers of small QDense / QConv2D models (kernel and bias, one object
+                    shared by two layers; live 'auto' / 'auto_po2' / quantized_linear, or frozen with the post-training
+                    scale given as float32 / float64 ndarray, live.scale.numpy(), tf.constant, np.float32, 0-d array,
+                    nested list, python float): call, model_save_quantized_weights (the anchored consumer), read, call
+                    again, second export, other data, first tensor again, get_weight_scale,
+                    clone_model_and_freeze_auto_po2_scale.  After EVERY event the output of the event is judged by the
+                    clause oracle against the scale the object exposes NOW, q.scale of a frozen quantizer must still be
+                    the configured post-training scale, every instance attribute must be untouched, the object must
+                    equal a fresh twin on the same tensor, and the object state / result / exported entries are tied
+                    to the Lean event history (`qbRunEv`, QBEvent.save);
 Clause oracle on the REAL outputs (Python Fractions): y = rnd32(S * k * step) with integer |k| <= 2^(bits-1)-1,
 S constant on the SPEC groups and positive, 'auto' maps the group maximum to the top code and clips nothing,
 'auto_po2' scales are powers of two within the bounds, everything finite."""
@@ -806,6 +816,495 @@ def run_argforms(run, Q, tf, forms):
                          scale_shape=list(got[1].shape), scale_shape_ref=list(ref[1].shape)), mirrored=False)
 
 
+# ------------------------------------------------------------------ the consumer inside a history
+
+# forms in which a post-training scale reaches the constructor (same values => same behaviour); the quantizer stores
+# np.array(form): float32 arrays for the first five, float64 for the others
+PTS_FORMS = ("float32 ndarray", "live.scale.numpy()", "tf.constant", "np.float32 scalar", "0-d float32 ndarray",
+             "float64 ndarray", "nested list", "python float")
+CONSUMER_LAYERS = ("dense", "conv2d", "dense-shared")
+
+
+def gen_consumers(rng, tier):
+  """small QDense / QConv2D models whose weight quantizers are the C05 quantizers (live, or frozen with the
+  post-training scale given in every form), to be called, EXPORTED (model_save_quantized_weights) and re-observed"""
+  reps = 1 if tier == "quick" else 5
+  out = []
+  modes = [("live", None)] * 3 + [("frozen", f) for f in PTS_FORMS]
+  for rep in range(reps):
+    for t, (mode, form) in enumerate(modes):
+      for lk in CONSUMER_LAYERS:
+        if lk == "dense-shared" and (t + rep) % 3 != 0:
+          continue
+        qk = "qlinear" if (mode == "live" and t == 2) else "qbits"
+        po2 = bool(rng.random() < 0.85)
+        bits = int(rng.integers(2, 9))
+        cfg = dict(bits=bits, integer=int(rng.integers(0, 4)), kn=True if rng.random() < 0.85 else False, po2=po2,
+                   sa=None, eps=None, mn=None, mx=None)
+        if qk == "qlinear":
+          cfg["sym"] = bool(rng.random() < 0.7)
+        cin, cout = int(rng.choice([2, 4])), int(rng.choice([2, 4, 8]))
+        if lk == "dense-shared":
+          cin = cout
+        kshape = [cin, cout] if lk != "conv2d" else [int(rng.choice([1, 2])), 2, cin, cout]
+        if mode == "live" and rng.random() < 0.3:
+          cfg["sa"] = int(rng.integers(0, len(kshape)))
+        bias = None
+        if lk != "dense-shared" and rng.random() < 0.45:
+          # a second C05 quantizer on the bias (rank 1: one scale per element)
+          bias = dict(mode="live" if rng.random() < 0.5 else "frozen",
+                      cfg=dict(cfg, bits=int(rng.integers(2, 9)), integer=int(rng.integers(0, 3)), sa=None),
+                      form=PTS_FORMS[int(rng.integers(0, len(PTS_FORMS)))])
+        out.append(dict(layer=lk, q=qk, mode=mode, form=form, cfg=cfg, kshape=kshape, cout=cout, bias=bias,
+                        export_ch_last=bool(lk != "dense" or rng.random() < 0.75),
+                        w=[varied_tensor(rng, kshape, g=int(rng.integers(-3, 2))) for _ in range(2)],
+                        w_other=varied_tensor(rng, kshape, g=int(rng.integers(-2, 4))),
+                        b=varied_tensor(rng, [cout], g=int(rng.integers(-3, 2))),
+                        b_other=varied_tensor(rng, [cout], g=int(rng.integers(-2, 3))),
+                        pts_exp=rng.integers(-3, 4, size=64), pts_rank=int(rng.integers(0, 3)),
+                        clone=bool(mode == "live" and qk == "qbits" and po2 and bias is None),
+                        clone_quantize=bool(sum(1 for o in out if o["clone"]) % 2 == 0)))
+  return out
+
+
+def canon_pts(rng_exp, form, po2, shape_full, cout, rank_sel, wt, unit_top):
+  """the VALUES of a post-training scale (float32 array): powers of two (the export asserts it for auto_po2; 'auto'
+  gets 3-bit dyadics), one per output channel in keepdims / flat form, or one scalar"""
+  if form in ("np.float32 scalar", "0-d float32 ndarray", "python float") or rank_sel == 0:
+    shape = []
+  elif rank_sel == 1:
+    shape = [cout]
+  else:
+    shape = [1] * (len(shape_full) - 1) + [cout]
+  n = int(np.prod(shape)) if shape else 1
+  # commensurate with the data: the channel (or tensor) maximum lands near the top code, exponent jittered by -1..1
+  # (so some channels saturate, none is far below the data: the straight-through absorption regime is a recorded
+  # finding and not the point of this stream)
+  mx = np.max(np.abs(wt.astype(np.float64)).reshape(-1, wt.shape[-1]), axis=0)
+  mx = np.where(mx > 0, mx, 1.0)
+  base = np.round(np.log2(mx / unit_top))
+  base = base[:n] if n > 1 else np.array([np.max(base)])
+  v = np.exp2(base + (np.asarray(rng_exp[:n], dtype=np.float64) % 3 - 1))
+  if not po2:
+    v = v * (1 + (np.arange(n) % 3) * 0.25)
+  return v.astype(np.float32).reshape(shape)
+
+
+def pts_in_form(tf, form, v):
+  if form == "float32 ndarray":
+    return v.copy()
+  if form == "float64 ndarray":
+    return v.astype(np.float64)
+  if form == "nested list":
+    return v.tolist()
+  if form == "tf.constant":
+    return tf.constant(v)
+  if form == "np.float32 scalar":
+    return np.float32(v)
+  if form == "0-d float32 ndarray":
+    return np.array(v, dtype=np.float32)
+  if form == "python float":
+    return float(v)
+  raise ValueError(form)
+
+
+def observe(qk, q):
+  sc = q.scale
+  d = dict(type=type(sc).__name__, dtype=str(getattr(sc, "dtype", None)))
+  d["sc"] = np.asarray(sc.numpy() if hasattr(sc, "numpy") else sc, dtype=np.float64).copy()
+  d["qs"] = np.asarray(q.quantization_scale, dtype=np.float64).copy() if qk == "qlinear" else None
+  d["snap"] = snapshot(q)
+  return d
+
+
+def run_consumer(Q, K, tf, c):
+  """the REAL code.  Per quantizer OBJECT held by the model a history of events: direct call, export of the model
+  (model_save_quantized_weights), read, direct call again, second export, call on other data, call again, then
+  get_weight_scale and (where the function supports the model) clone_model_and_freeze_auto_po2_scale"""
+  from qkeras import QConv2D, QDense
+  from qkeras import utils as U
+  tfk = tf.keras
+  res = dict(objs=[], err=None, clone=None)
+  K.set_image_data_format("channels_last")
+  try:
+    def mk(qk, mode, form, cfg, wt, rank_sel):
+      pts = None
+      if mode == "frozen":
+        if form == "live.scale.numpy()":
+          live = build_q(Q, qk, cfg, None)
+          live(tf.constant(wt))
+          pts = live.scale.numpy()
+          arg = pts
+        else:
+          ub = cfg["bits"] - (1 if cfg["kn"] else 0)
+          pts = canon_pts(c["pts_exp"], form, cfg["po2"], list(wt.shape), wt.shape[-1], rank_sel, wt,
+                          (2.0 ** (cfg["bits"] - 1) - 1) * 2.0 ** (cfg["integer"] - ub))
+          arg = pts_in_form(tf, form, pts)
+        pts = np.array(pts, dtype=np.float32)
+        q = Q.quantized_bits(cfg["bits"], cfg["integer"], 0, keep_negative=cfg["kn"],
+                             alpha="auto_po2" if cfg["po2"] else "auto", scale_axis=cfg["sa"], post_training_scale=arg)
+      else:
+        q = build_q(Q, qk, cfg, None)
+      return q, pts
+    kq, kpts = mk(c["q"], c["mode"], c["form"], c["cfg"], c["w"][0], c["pts_rank"])
+    bq = bpts = None
+    if c["bias"] is not None:
+      bq, bpts = mk("qbits", c["bias"]["mode"], c["bias"]["form"], c["bias"]["cfg"], c["b"], 1)
+    kw = dict(kernel_quantizer=kq, bias_quantizer=bq, use_bias=c["bias"] is not None)
+    if c["layer"] == "conv2d":
+      x = inp = tfk.Input((5, 5, c["kshape"][2]))
+      layers = [QConv2D(c["cout"], tuple(c["kshape"][:2]), name="c0", **kw)]
+    else:
+      x = inp = tfk.Input((c["kshape"][0],))
+      layers = [QDense(c["cout"], name="d0", **kw)]
+      if c["layer"] == "dense-shared":
+        layers.append(QDense(c["cout"], name="d1", **kw))
+    for l in layers:
+      x = l(x)
+    model = tfk.Model(inp, x)
+    for i, l in enumerate(layers):
+      l.set_weights([c["w"][i]] + ([c["b"]] if c["bias"] is not None else []))
+    # the objects the layers really hold, with their slots (layer, weight index) in export order
+    objs = []
+    for l in layers:
+      for wi, q in enumerate(l.get_quantizers()):
+        if q is None:
+          continue
+        o = next((o for o in objs if o["q"] is q), None)
+        if o is None:
+          o = dict(q=q, qk=c["q"] if wi == 0 else "qbits", cfg=c["cfg"] if wi == 0 else c["bias"]["cfg"],
+                   pts=kpts if wi == 0 else bpts, form=(c["form"] if wi == 0 else c["bias"]["form"]),
+                   mode=(c["mode"] if wi == 0 else c["bias"]["mode"]), role="kernel" if wi == 0 else "bias",
+                   slots=[], events=[], x0=c["w"][0] if wi == 0 else c["b"],
+                   x_other=c["w_other"] if wi == 0 else c["b_other"])
+          if o["mode"] == "live":
+            o["form"] = None
+          objs.append(o)
+        o["slots"].append((l, wi))
+    res["objs"] = objs
+
+    def twin_of(o, xt):
+      try:
+        tw = build_q(Q, o["qk"], o["cfg"], o["pts"])
+        return call_q(o["qk"], tw, tf.constant(xt), list(xt.shape)), None
+      except Exception as e:  # pylint: disable=broad-except
+        return None, "%s: %s" % (type(e).__name__, str(e)[:200])
+
+    def ev_call(o, xt, tag, ch_last=True):
+      ev = dict(kind="call", tag=tag, x=xt.copy(), ch_last=ch_last, err=None)
+      K.set_image_data_format("channels_last" if ch_last else "channels_first")
+      try:
+        ev["y"] = np.asarray(o["q"](tf.constant(xt)), dtype=np.float32)
+        ev.update(observe(o["qk"], o["q"]))
+      except Exception as e:  # pylint: disable=broad-except
+        ev["err"] = "%s: %s" % (type(e).__name__, str(e)[:200])
+      ev["twin"], ev["twin_err"] = twin_of(o, xt)
+      K.set_image_data_format("channels_last")
+      o["events"].append(ev)
+
+    def ev_export(tag, ch_last):
+      before = {id(o["q"]): [np.array(l.get_weights()[wi], dtype=np.float32) for l, wi in o["slots"]] for o in objs}
+      K.set_image_data_format("channels_last" if ch_last else "channels_first")
+      err = ret = None
+      try:
+        ret = U.model_save_quantized_weights(model)
+      except Exception as e:  # pylint: disable=broad-except
+        err = "%s: %s" % (type(e).__name__, str(e)[:200])
+      for o in objs:
+        for si, (l, wi) in enumerate(o["slots"]):
+          xt = before[id(o["q"])][si]
+          ev = dict(kind="export", tag=tag, x=xt, ch_last=ch_last, err=err, last_slot=si == len(o["slots"]) - 1)
+          if err is None:
+            try:
+              ev["y"] = np.array(l.get_weights()[wi], dtype=np.float32)        # software-format weight written back
+              ev["hw"] = np.asarray(ret[l.name]["weights"][wi], dtype=np.float64)
+              scs = ret[l.name].get("scales")
+              ev["scales"] = None if scs is None or isinstance(scs[wi], list) else np.asarray(scs[wi], dtype=np.float64)
+              ev.update(observe(o["qk"], o["q"]))      # AFTER the whole export (= after the object's last slot)
+            except Exception as e:  # pylint: disable=broad-except
+              ev["err"] = "%s: %s" % (type(e).__name__, str(e)[:200])
+          ev["twin"], ev["twin_err"] = twin_of(o, xt)
+          o["events"].append(ev)
+      K.set_image_data_format("channels_last")
+
+    import contextlib, io
+    with contextlib.redirect_stdout(io.StringIO()):
+      for o in objs:
+        ev_call(o, o["x0"], "call before the export")
+      ev_export("first export", c["export_ch_last"])
+      for o in objs:
+        ev_call(o, o["x0"], "call after the export")
+      ev_export("second export (weights already quantized)", True)
+      for o in objs:
+        ev_call(o, o["x_other"], "other data after two exports")
+        ev_call(o, o["x0"], "first tensor again", ch_last=c["export_ch_last"])
+        try:
+          g = Q.get_weight_scale(o["q"])
+          o["gws"] = np.asarray(g, dtype=np.float64)
+          o["after_gws"] = observe(o["qk"], o["q"])
+        except Exception as e:  # pylint: disable=broad-except
+          o["gws_err"] = "%s: %s" % (type(e).__name__, str(e)[:200])
+      if c["clone"]:
+        cl = dict(err=None, layers=[])
+        wcur = [[np.array(v, dtype=np.float32) for v in l.get_weights()] for l in layers]
+        try:
+          # quantize_model_weights=True also exports the NEW model (frozen float64 scales) and self-checks the hardware
+          # weights; with False only the oracle below judges the frozen quantizers
+          nm, _ = U.clone_model_and_freeze_auto_po2_scale(model, quantize_model_weights=c["clone_quantize"])
+          for l, ws in zip(layers, wcur):
+            nq = nm.get_layer(l.name).get_quantizers()[0]
+            d = dict(wc=ws[0], w=c["w"][0], nq_pts=np.asarray(nq.post_training_scale, dtype=np.float64),
+                     freeze=bool(nq.freeze_scale), attrs=model_attrs("qbits", nq), obs0=observe("qbits", nq))
+            d["y"] = np.asarray(nq(tf.constant(c["w"][0])), dtype=np.float32)
+            d["obs1"] = observe("qbits", nq)
+            live = build_q(Q, "qbits", c["cfg"], None)
+            live(tf.constant(ws[0]))
+            d["want_pts"] = np.asarray(live.scale.numpy(), dtype=np.float32)
+            cl["layers"].append(d)
+          for o in objs:
+            o["after_clone"] = observe(o["qk"], o["q"])
+        except Exception as e:  # pylint: disable=broad-except
+          cl["err"] = "%s: %s" % (type(e).__name__, str(e)[:300])
+        res["clone"] = cl
+  except Exception as e:  # pylint: disable=broad-except
+    res["err"] = "%s: %s" % (type(e).__name__, str(e)[:300])
+  finally:
+    K.set_image_data_format("channels_last")
+    tf.keras.backend.clear_session()
+  return res
+
+
+def consumer_lines(c, res, eps32):
+  """one driver line per quantizer object (qbits_hist / qlinear_hist with export events), plus one per cloned
+  quantizer (frozen object: export inside the clone function, then a call)"""
+  lines, owners = [], []
+  for oi, o in enumerate(res["objs"]):
+    qk = o["qk"]
+    steps = [dict(set=None, ch_last=ev["ch_last"], shape=list(ev["x"].shape), x=A.enc(A.fr(ev["x"])),
+                  export=ev["kind"] == "export") for ev in o["events"]]
+    l = dict(op="qbits_hist" if qk == "qbits" else "qlinear_hist", cfg=cfg_attrs(qk, o["cfg"]), steps=steps,
+             eps32=core.rj(eps32))
+    if o["pts"] is not None:
+      l["pts"] = dict(shape=list(o["pts"].shape), vals=A.enc(A.fr(o["pts"])))
+    lines.append(l)
+    owners.append(("obj", oi))
+  if res["clone"] is not None and res["clone"]["err"] is None:
+    for li, d in enumerate(res["clone"]["layers"]):
+      steps = [dict(set=None, ch_last=True, shape=list(d["wc"].shape), x=A.enc(A.fr(d["wc"])), export=True),
+               dict(set=None, ch_last=True, shape=list(d["w"].shape), x=A.enc(A.fr(d["w"])), export=False)]
+      lines.append(dict(op="qbits_hist", cfg=cfg_attrs("qbits", c["cfg"]), steps=steps, eps32=core.rj(eps32),
+                        pts=dict(shape=list(d["want_pts"].shape), vals=A.enc(A.fr(d["want_pts"])))))
+      owners.append(("clone", li))
+  return lines, owners
+
+
+def arr_desc(a):
+  a = np.asarray(a)
+  return dict(shape=list(a.shape), vals=[float(v) for v in a.ravel()[:8]])
+
+
+def judge_consumer(run, c, res, outs, owners):
+  """every event of every object: Lean tie (result, stored scale, exported entries), clause oracle on the real
+  output against the scale the object exposes NOW, fresh twin, frozen scale / attributes unchanged by the export"""
+  base = dict(layer=c["layer"], kernel_shape=c["kshape"], export_data_format="channels_last" if c["export_ch_last"]
+              else "channels_first")
+  if res["err"] is not None:
+    run.case(key=("consumer-raises", len(run.nontrivial)), nontrivial=True)
+    run.violate("returns_output", dict(quantizer=c["q"], consumer="model-build", error=res["err"].split(":")[0]),
+                dict(base, error=res["err"], mode=c["mode"], form=c["form"], cfg=c["cfg"]), mirrored=False)
+    return
+  for (kind, idx), out in zip(owners, outs):
+    if kind != "obj":
+      continue
+    o = res["objs"][idx]
+    qk, cfg, pts = o["qk"], o["cfg"], o["pts"]
+    alpha = "auto_po2" if cfg["po2"] else "auto"
+    key0 = dict(quantizer="quantized_bits" if qk == "qbits" else "quantized_linear", alpha=alpha,
+                frozen=pts is not None)
+    msteps = out.get("steps", [])
+    first = {}
+    prev = None
+    for i, ev in enumerate(o["events"]):
+      lab = dict(base, role=o["role"], scale_mode=o["mode"], post_training_scale_form=o["form"],
+                 post_training_scale=None if pts is None else arr_desc(pts), cfg=cfg,
+                 events=[e["kind"] + ": " + e["tag"] for e in o["events"][:i + 1]],
+                 tensor=[float(v) for v in ev["x"].ravel()[:12]])
+      run.count("consumer:%s:%s:%s" % (ev["kind"], qk, o["mode"] if pts is None else "frozen/" + str(o["form"])))
+      mo = msteps[i] if i < len(msteps) else {"err": "missing"}
+      if ev["err"] is not None:
+        run.case(key=("consumer-raises", len(run.nontrivial)), nontrivial=True)
+        run.violate("returns_output", dict(key0, consumer=ev["kind"], error=ev["err"].split(":")[0]),
+                    dict(lab, error=ev["err"]), mirrored=False)
+        prev = None
+        continue
+      shape = list(ev["x"].shape)
+      sc_raw, qs_raw, y = ev["sc"], ev["qs"], ev["y"]
+      try:
+        sc = A.broadcast_scale(sc_raw, tuple(shape))
+        qs = None if qs_raw is None else A.broadcast_scale(qs_raw, tuple(shape))
+      except ValueError:
+        sc = None
+      inter = ev["kind"] == "export" and not ev["last_slot"]      # a shared object: scale read after its LAST slot
+      if sc is None or list(y.shape) != shape:
+        run.case(key=("consumer-scale-shape", len(run.nontrivial)), nontrivial=True)
+        run.violate("scale_shape", dict(key0, consumer=ev["kind"]),
+                    dict(lab, scale_shape=list(sc_raw.shape), output_shape=list(y.shape)), mirrored=False)
+        prev = ev
+        continue
+      if not (np.isfinite(y).all() and np.isfinite(sc).all() and (qs is None or np.isfinite(qs).all())):
+        run.case(key=("consumer-nonfinite", len(run.nontrivial)), nontrivial=True)
+        run.violate("finite", dict(key0, consumer=ev["kind"]), dict(lab, y=[float(v) for v in y.ravel()[:8]],
+                                                                    scale=arr_desc(sc_raw)), mirrored=False)
+        prev = ev
+        continue
+      # ---- clause oracle + Lean tie: the output of THIS event against the scale the object exposes after it
+      if not (inter and pts is None):
+        cc = dict(cfg, q=qk, stream="consumer", shape=shape, x=ev["x"], ch_last=ev["ch_last"], pts=pts,
+                  scale_shapes=[list(sc_raw.shape)] + ([list(qs_raw.shape)] if qs_raw is not None else []),
+                  consumer=lab)
+        im = (A.fr(ev["x"]), A.fr(y), [F(float(v)) for v in sc], None if qs is None else [F(float(v)) for v in qs])
+        r = tie_and_judge(run, cc, im, mo)
+      # ---- the frozen scale is an INPUT: after every event q.scale is still the configured post-training scale
+      if pts is not None:
+        if list(sc_raw.shape) != list(pts.shape) or not np.array_equal(sc_raw, pts.astype(np.float64)):
+          run.violate("frozen_scale_kept", dict(key0, after=ev["kind"]),
+                      dict(lab, configured=arr_desc(pts), exposed_now=arr_desc(sc_raw),
+                           why="quantizer.scale read after this event is not the configured post_training_scale"),
+                      mirrored=False)
+      # ---- the object's state after the event, against the object model (stored scale, attributes)
+      st = mo.get("stored")
+      if "err" not in mo and not mo.get("band") and not inter:
+        want = None
+        if st is not None:
+          try:
+            want = [F(v) for v in A.dec(st["vals"])]
+            wshape = st["shape"]
+            wb = A.broadcast_scale(np.array([float(v) for v in want]).reshape(wshape), tuple(shape))
+          except ValueError:
+            wb = None
+        run.compared += 1
+        real = sc if qk == "qbits" else qs        # QLObj stores self.quantization_scale
+        if st is None or wb is None or not np.array_equal(np.asarray(wb, dtype=np.float64), np.asarray(real, dtype=np.float64)):
+          run.disagree("consumer-stored-scale:" + qk, lab, arr_desc(sc_raw if qk == "qbits" else qs_raw),
+                       None if st is None else dict(shape=st["shape"], vals=[float(v) for v in A.dec(st["vals"])][:8]))
+        if qk == "qbits" and mo.get("attrs") != cfg_attrs(qk, cfg):
+          run.disagree("consumer-attributes:" + qk, lab, None, mo.get("attrs"))
+      # ---- the entries the export returns (tie only; whether hw*scale reproduces the weight is C14's clause)
+      if ev["kind"] == "export" and qk == "qbits" and "err" not in mo and not mo.get("band") and mo.get("exported"):
+        ex = mo["exported"]
+        run.compared += 1
+        hw_m = [float(v) for v in A.dec(ex["hw"])]
+        ok = list(np.asarray(ev["hw"]).ravel()) == hw_m
+        if ex["scales"] is None:
+          ok = ok and ev["scales"] is None
+        else:
+          try:
+            ok = ok and ev["scales"] is not None and \
+                [float(v) for v in A.broadcast_scale(ev["scales"], tuple(shape))] == [float(v) for v in A.dec(ex["scales"])]
+          except ValueError:
+            ok = False
+        if not ok:
+          run.disagree("consumer-exported-entries", lab,
+                       dict(hw=arr_desc(ev["hw"]), scales=None if ev["scales"] is None else arr_desc(ev["scales"])),
+                       dict(hw=hw_m[:8], scales=None if ex["scales"] is None else [float(v) for v in A.dec(ex["scales"])][:8]))
+      # ---- attributes: the model's public ones and every other instance attribute are untouched by the event
+      if prev is not None and "snap" in prev:
+        skip = set() if pts is not None else {"scale", "quantization_scale"}
+        ds = sorted(k for k in set(ev["snap"]) | set(prev["snap"])
+                    if k not in skip and ev["snap"].get(k, "<missing>") != prev["snap"].get(k, "<missing>"))
+        if ds or (pts is not None and (ev["type"], ev["dtype"]) != (prev["type"], prev["dtype"])):
+          run.violate("consumer_keeps_quantizer", dict(key0, after=ev["kind"], attributes=",".join(ds) or "scale-type"),
+                      dict(lab, before={k: prev["snap"].get(k, "<missing>") for k in ds},
+                           after={k: ev["snap"].get(k, "<missing>") for k in ds},
+                           scale_type=[prev["type"], prev["dtype"], ev["type"], ev["dtype"]],
+                           why="instance attributes of the quantizer object changed across this event "
+                               "(a call / an export may only assign self.scale of a non-frozen quantizer)"),
+                      mirrored=False)
+      # ---- function of (configuration, tensor): fresh twin on this tensor; the same tensor earlier in the history
+      run.compared += 1
+      if ev["twin_err"] is not None:
+        run.violate("returns_output", dict(key0, error=ev["twin_err"].split(":")[0]), dict(lab, error=ev["twin_err"]),
+                    mirrored=False)
+      elif not inter:
+        ty, tsc, tqs = ev["twin"]
+        same = (y.shape == ty.shape and np.array_equal(y, ty) and sc_raw.shape == tsc.shape and np.array_equal(sc_raw, tsc)
+                and (qs_raw is None or (qs_raw.shape == tqs.shape and np.array_equal(qs_raw, tqs))))
+        if not same:
+          j = int(np.argmax(y.ravel() != ty.ravel())) if y.shape == ty.shape and not np.array_equal(y, ty) else 0
+          run.violate("function_of_data", dict(key0, consumer=ev["kind"]),
+                      dict(lab, why="after the earlier events (calls and exports) this object differs from a fresh "
+                                    "quantizer of the same configuration / post-training scale on the same tensor",
+                           i=j, y=float(y.ravel()[j]), y_fresh=float(ty.ravel()[j]) if y.shape == ty.shape else None,
+                           scale=arr_desc(sc_raw), scale_fresh=arr_desc(tsc)), mirrored=False)
+        else:
+          run.count("consumer:event-equals-fresh-twin")
+      kx = (ev["x"].tobytes(), ev["ch_last"])
+      if kx in first and ev["kind"] == "call":
+        y0 = first[kx]
+        if not np.array_equal(y0, y):
+          j = int(np.argmax(y0.ravel() != y.ravel()))
+          run.violate("function_of_data", dict(key0, consumer="repeat"),
+                      dict(lab, why="the same object returns another output for the tensor it was given earlier "
+                                    "in this history", i=j, y_earlier=float(y0.ravel()[j]), y_now=float(y.ravel()[j])),
+                      mirrored=False)
+      elif ev["kind"] == "call":
+        first[kx] = y
+      prev = ev
+    # ---- get_weight_scale(q) is the exposed scale, and reads only
+    lab = dict(base, role=o["role"], scale_mode=o["mode"], post_training_scale_form=o["form"], cfg=cfg)
+    if "gws_err" in o:
+      run.violate("returns_output", dict(key0, consumer="get_weight_scale", error=o["gws_err"].split(":")[0]),
+                  dict(lab, error=o["gws_err"]), mirrored=False)
+    elif "gws" in o and o["events"] and "sc" in o["events"][-1]:
+      last = o["events"][-1]
+      if o["gws"].shape != last["sc"].shape or not np.array_equal(o["gws"], last["sc"]) or \
+          not np.array_equal(o["after_gws"]["sc"], last["sc"]):
+        run.violate("consumer_keeps_quantizer", dict(key0, after="get_weight_scale"),
+                    dict(lab, returned=arr_desc(o["gws"]), exposed=arr_desc(last["sc"]),
+                         exposed_after=arr_desc(o["after_gws"]["sc"])), mirrored=False)
+    if "after_clone" in o and o["events"] and "snap" in o["events"][-1]:
+      if o["after_clone"]["snap"] != o["events"][-1]["snap"]:
+        run.violate("consumer_keeps_quantizer", dict(key0, after="clone_model_and_freeze_auto_po2_scale"),
+                    dict(lab, why="the ORIGINAL model's quantizer changed while the model was cloned"), mirrored=False)
+  # ---- the clone route: frozen quantizers built by clone_model_and_freeze_auto_po2_scale, exported inside it
+  cl = res["clone"]
+  if cl is None:
+    return
+  key0 = dict(quantizer="quantized_bits", alpha="auto_po2", frozen=True, route="clone_model_and_freeze_auto_po2_scale")
+  if cl["err"] is not None:
+    run.case(key=("consumer-clone-raises", len(run.nontrivial)), nontrivial=True)
+    run.violate("returns_output", dict(key0, error=cl["err"].split(":")[0]), dict(base, cfg=c["cfg"], error=cl["err"]),
+                mirrored=False)
+    return
+  for (kind, idx), out in zip(owners, outs):
+    if kind != "clone":
+      continue
+    d = cl["layers"][idx]
+    lab = dict(base, cfg=c["cfg"], cloned_layer=idx, weights_at_clone=[float(v) for v in d["wc"].ravel()[:12]],
+               tensor=[float(v) for v in d["w"].ravel()[:12]])
+    run.count("consumer:clone-route:quantize_model_weights=%s" % c["clone_quantize"])
+    want = d["want_pts"].astype(np.float64)
+    for name, got in (("post_training_scale", d["nq_pts"]), ("scale after the clone", d["obs0"]["sc"]),
+                      ("scale after a call", d["obs1"]["sc"])):
+      if list(got.shape) != list(want.shape) or not np.array_equal(got, want):
+        run.violate("frozen_scale_kept", dict(key0, what=name),
+                    dict(lab, expected=arr_desc(want), got=arr_desc(got),
+                         why="the frozen scale of the cloned quantizer is not the scale the live quantizer exposes "
+                             "for the weights of the model"), mirrored=False)
+    if not d["freeze"] or d["attrs"] != cfg_attrs("qbits", c["cfg"]):
+      run.violate("consumer_keeps_quantizer", dict(key0, what="attributes"),
+                  dict(lab, attrs=d["attrs"], freeze_scale=d["freeze"]), mirrored=False)
+    msteps = out.get("steps", [])
+    mo = msteps[1] if len(msteps) > 1 else {"err": "missing"}
+    try:
+      sc = A.broadcast_scale(d["obs1"]["sc"], tuple(d["w"].shape))
+    except ValueError:
+      continue
+    cc = dict(c["cfg"], q="qbits", stream="consumer", shape=list(d["w"].shape), x=d["w"], ch_last=True, pts=d["want_pts"],
+              consumer=lab)
+    tie_and_judge(run, cc, (A.fr(d["w"]), A.fr(d["y"]), [F(float(v)) for v in sc], None), mo)
+
+
 def tie_and_judge(run, c, im, o):
   """one call of the real code (x, y, broadcast scale, quantization_scale as Fractions) against the model's answer
   `o` for the same call, then the clause oracle on the REAL output; returns (y, scale, band) or None"""
@@ -863,7 +1362,13 @@ def run(run, tier):
                        "then data / frozen post-training scale over ranks / alpha=None stand-alone call then "
                        "_set_trainable_parameter): every step judged by the clause oracle, tied to the Lean object model "
                        "and compared with a fresh twin (output, scale values and shape, attributes). Argument forms "
-                       "(numpy / float / 0-d array options, ndarray / float64 / Variable / list inputs). Every case has a "
+                       "(numpy / float / 0-d array options, ndarray / float64 / Variable / list inputs). CONSUMER histories: "
+                       "the quantizers as kernel / bias quantizers of QDense / QConv2D models (live, or frozen with the "
+                       "post-training scale in 8 argument forms; one object shared by two layers), events call -> "
+                       "model_save_quantized_weights -> call -> second export -> other data -> first tensor again -> "
+                       "get_weight_scale -> clone_model_and_freeze_auto_po2_scale, judged after every event (clause oracle "
+                       "against the scale exposed NOW, frozen scale kept, attributes untouched, fresh twin, Lean event "
+                       "history). Every case has a "
                        "data-dependent (or frozen) scale, so every case is non-trivial.")
   lines, impl = [], []
   for c in cases:
@@ -893,8 +1398,16 @@ def run(run, tier):
   forms = gen_argforms(rng, tier)
   hist_impl = [run_history(run, Q, K, tf, h) for h in hists]
   hist_lines = [hist_line(h, eps32) for h in hists]
-  outs_all = core.run_driver("C05", lines + hist_lines)
-  outs, hist_outs = outs_all[:len(lines)], outs_all[len(lines):]
+  cons = gen_consumers(rng, tier)
+  cons_res = [run_consumer(Q, K, tf, c) for c in cons]
+  cons_lines, cons_span = [], []
+  for c, r in zip(cons, cons_res):
+    ls, ow = consumer_lines(c, r, eps32)
+    cons_span.append((len(cons_lines), len(ls), ow))
+    cons_lines += ls
+  outs_all = core.run_driver("C05", lines + hist_lines + cons_lines)
+  outs, hist_outs = outs_all[:len(lines)], outs_all[len(lines):len(lines) + len(hist_lines)]
+  cons_outs = outs_all[len(lines) + len(hist_lines):]
   res = {}
   for c, im, o in zip(cases, impl, outs):
     if im is None:
@@ -905,6 +1418,8 @@ def run(run, tier):
   for h, recs, o in zip(hists, hist_impl, hist_outs):
     judge_history(run, h, recs, o)
   run_argforms(run, Q, tf, forms)
+  for c, r, (a, n, ow) in zip(cons, cons_res, cons_span):
+    judge_consumer(run, c, r, cons_outs[a:a + n], ow)
   # ---- scale equivariance on the twins (x -> 2^k x), away from the epsilon floor and the band
   for c, d in twins:
     if id(c) not in res or id(d) not in res:
@@ -925,6 +1440,8 @@ def run(run, tier):
                    "scale": float(s0[j]), "scale_twin": float(s1[j])}, mirrored=True)
   run.extra["cases"] = len(cases)
   run.extra["histories"] = {"objects": len(hists), "calls": sum(len(h["steps"]) for h in hists)}
+  run.extra["consumers"] = {"models": len(cons), "objects": sum(len(r["objs"]) for r in cons_res),
+                            "events": sum(len(o["events"]) for r in cons_res for o in r["objs"])}
   run.assumptions.append("2^k twins (fresh pairs and same-object pairs of a history) are judged only when every internal "
                          "scale is >= 2^-5 ('well above the epsilon floor': eps/s below the band of the logarithm "
                          "oracle), no band was touched and no exponent bound is configured")
